@@ -187,6 +187,28 @@ func (sd *streamSide) start(c *harness.Ctx, conn net.Conn, prop string) {
 	})
 }
 
+// drawHangUp: in a third of the runs one side hangs up when it is done while
+// the other may still have bytes coming.
+// afterFirstByte: hang up only once the peer has read something, i.e. is past
+// its own handshake/magic phase (obfs3 deliberately treats data that arrives
+// together with a read error during that phase as lost - DESIGN.md 9.7).
+func drawHangUp(c *harness.Ctx, cs, ss *streamSide, afterFirstByte bool) {
+	k := c.T.Draw("hangup", 6)
+	if k < 4 {
+		return
+	}
+	x, y := cs, ss
+	if k == 5 {
+		x, y = ss, cs
+	}
+	flag := new(bool)
+	x.hungUp, y.peerHungUp = flag, flag
+	x.hangUpWhen = func() bool {
+		return x.wrDone && y.wrDone && x.gotIn == x.expectIn && (!afterFirstByte || y.gotIn > 0 || y.expectIn == 0)
+	}
+	c.Info["hangs_up_when_done"] = x.name
+}
+
 func (sd *streamSide) maybeHangUp(c *harness.Ctx, conn net.Conn) {
 	if sd.hangUpWhen == nil || *sd.hungUp || !sd.hangUpWhen() {
 		return
@@ -225,17 +247,7 @@ func runC01(c *harness.Ctx) {
 	cs := &streamSide{name: "c", dirOut: 0, dirIn: 1, plan: drawWrites(c, "cw", 6), rdBuf: []int{32768, 1, 7, 1427, 4096}[t.Draw("c.rdbuf", 5)], ending: &ending}
 	ss := &streamSide{name: "s", dirOut: 1, dirIn: 0, plan: drawWrites(c, "sw", 6), rdBuf: []int{32768, 1, 7, 1427, 4096}[t.Draw("s.rdbuf", 5)], ending: &ending}
 	cs.expectIn, ss.expectIn = planTotal(ss.plan), planTotal(cs.plan)
-	if k := t.Draw("hangup", 6); k >= 4 {
-		// one side hangs up when it is done; the other still has bytes coming
-		x, y := cs, ss
-		if k == 5 {
-			x, y = ss, cs
-		}
-		flag := new(bool)
-		x.hungUp, y.peerHungUp = flag, flag
-		x.hangUpWhen = func() bool { return x.wrDone && y.wrDone && x.gotIn == x.expectIn }
-		c.Info["hangs_up_when_done"] = x.name
-	}
+	drawHangUp(c, cs, ss, false)
 	cs.rdDeadlineMs = []int{0, 0, 0, 1, 20, 300}[t.Draw("c.rddl", 6)]
 	ss.rdDeadlineMs = []int{0, 0, 0, 1, 20, 300}[t.Draw("s.rddl", 6)]
 	c.Info["client_read_deadline_ms"], c.Info["server_read_deadline_ms"] = cs.rdDeadlineMs, ss.rdDeadlineMs
